@@ -15,6 +15,7 @@
 package thrift_reflection
 
 import (
+	"path/filepath"
 	"strings"
 
 	"github.com/cloudwego/thriftgo/parser"
@@ -57,7 +58,10 @@ func GetFileDescriptor(ast *parser.Thrift) *FileDescriptor {
 	for _, inc := range ast.Includes {
 		path := inc.GetReference().Filename
 		arr := strings.Split(path, "/")
-		alias := strings.TrimSuffix(arr[len(arr)-1], ".thrift")
+		// the prefix the IDL writes before the names of this include: the base name
+		// without its extension (semantic.IDLPrefix), whatever the extension is
+		base := arr[len(arr)-1]
+		alias := strings.TrimSuffix(base, filepath.Ext(base))
 		includesMap[alias] = path
 	}
 
